@@ -181,7 +181,7 @@ class Ctx(object):
         return run
 
     def keep_log(self, tag, text):
-        d = os.path.join(VERIF, "replays", self.prop)
+        d = os.path.join(os.environ.get("VERIF_REPLAY_DIR") or os.path.join(VERIF, "replays"), self.prop)
         os.makedirs(d, exist_ok=True)
         p = os.path.join(d, "tlc_%s.log" % tag)
         with open(p, "w") as f:
@@ -226,7 +226,7 @@ class Ctx(object):
         rec = {"property": self.prop, "clause": clause, "case": case, "detail": detail,
                "seed": self.seed, "tier": self.tier}
         h = hashlib.sha1(canon(rec["case"]).encode() + clause.encode()).hexdigest()[:16]
-        d = os.path.join(VERIF, "replays", self.prop)
+        d = os.path.join(os.environ.get("VERIF_REPLAY_DIR") or os.path.join(VERIF, "replays"), self.prop)
         os.makedirs(d, exist_ok=True)
         p = os.path.join(d, h + ".json")
         if len(self.violations) < 40:          # later ones are counted, not written
@@ -271,7 +271,7 @@ class Ctx(object):
         }
         if machinery_error:
             ev["coverage"]["machinery_error"] = str(machinery_error)[:2000]
-        d = os.path.join(VERIF, "evidence")
+        d = os.environ.get("VERIF_EVIDENCE_DIR") or os.path.join(VERIF, "evidence")
         os.makedirs(d, exist_ok=True)
         with open(os.path.join(d, self.prop + ".json"), "w") as f:
             json.dump(ev, f, indent=1, sort_keys=True)
